@@ -4,4 +4,5 @@ import AspireModel.Model.Weights
 import AspireModel.Model.Rows
 import AspireModel.Model.Tempering
 import AspireModel.Model.Schedule
+import AspireModel.Model.Smc
 import AspireModel.Driver
